@@ -97,7 +97,8 @@ PStep(st0, tk) ==
     LET st == [st0 EXCEPT !.ntok = @ + 1]
         top == st.cur = 1
     IN IF ~st0.ok THEN st0
-       ELSE CASE tk.k = "decl" -> IF st0.ntok # 0 THEN PFail(st, "declaration not at the start")       \* the tokenizer
+       ELSE CASE tk.k = "bom" -> IF st0.ntok # 0 \/ st0.mode # "doc" THEN PFail(st, "byte order mark not at the start") ELSE st0
+              [] tk.k = "decl" -> IF st0.ntok # 0 THEN PFail(st, "declaration not at the start")       \* the tokenizer
                                  ELSE IF tk.ver # "1.0" THEN PFail(st, "version is not 1.0") ELSE st
               \* white space between top-level items is not a token for the document tokenizer
               [] tk.k = "ws" -> IF top /\ st.mode = "doc" THEN st ELSE PText(st, EolNorm(TextOfParts(tk.parts)))
